@@ -116,3 +116,21 @@ claim('C06',
       "Induction over the hierarchy depth is stated; hierarchies without repeated ancestors (C3 == depth-first left-to-right), as the property "
       "says; that the evaluator yields the right kind of value for each expression form is assumed (only its guards are verified).",
       "contract-based deductive verification: layered-table abstraction of the real merge functions with loop invariants", "DESIGN.md 3 C06")
+claim('C07',
+      "norm_package is proved over an abstract directory chain (loop invariants for the climb and for the collection of package ancestors) "
+      "against importlib.util.resolve_name; get_module is proved over an abstract file system with any number of roots (loop invariant: no "
+      "candidate in the earlier roots) against importlib's path finder, including the source/compiled/loaded case split, ImportError "
+      "exactly when nothing is found, and the cache branches; split_pkg/join_pkg over symbolic strings; ImportedName.resolve's order.",
+      "os.path / os.listdir as functions of an abstract file system; at most one candidate per root for a name (the property's domain); "
+      "list_packages is a BOUNDED stand-in (64 directory configurations, reported under `bounded`, not counted as proved); one known finding "
+      "(relative import climbing through a directory that is not a package).",
+      "contract-based deductive verification: loop invariants over an abstract file system on the real functions; bounded stand-in for list_packages",
+      "DESIGN.md 3 C07")
+claim('C09',
+      "Inv_cache: get_module over an abstract module store (symbolic `file changed` flags and dependency edge) serves a cached module only when "
+      "its own file is unchanged; check_changes empties the per-request cache; SourceModule.changed/scope contracts; the server wraps every "
+      "request in check_changes. The dependency-closure obligation fails on the current tree and is recorded as known finding D19 (history "
+      "replayed on real files).",
+      "Dependency-closure lemma stated (frame scan of file-system reads and cross-module references); histories are covered by induction on "
+      "the invariant, not enumerated; deleting files / shadowing from an earlier root are outside the domain.",
+      "contract-based deductive verification: ghost-state (valid / deps) invariant on the real cache functions", "DESIGN.md 3 C09")
